@@ -50,9 +50,13 @@ GapsCmt   == {" /* c */ ", " -- c\n"}
 GapsSemi2 == {"", " ", "\n"}
 
 UsersU    == {"u"}
-UsersAll  == {"u", "bob_1", "\"u\"", "\"a=b\"", "\"with password\"", "\"pass'word\"", "\"a b\"", "\"a\\\"b\"",
-              "\"password for\"", "\"=\"", "\"with password x\"", "\"\""}
-UsersEq   == {"u", "\"a=b\"", "\"=\""}
+\* quoted names with an '=' inside: followed by a blank, by a single-quoted word, by an escaped double-quoted
+\* word, at the end before a blank, twice, directly before a quote (the '=' branch of the SET PASSWORD pattern
+\* must not be taken inside the name)
+UsersEq   == {"u", "\"a=b\"", "\"=\"", "\"ops= team\"", "\"ops='x'\"", "\"a=\\\"b\\\"\"", "\"a= \"", "\"a==b\"",
+              "\"a='\"", "\"= b\"", "\"a= 'x' b\"", "\"a = b = c\""}
+UsersAll  == {"u", "bob_1", "\"u\"", "\"with password\"", "\"pass'word\"", "\"a b\"", "\"a\\\"b\"",
+              "\"password for\"", "\"with password x\"", "\"\""} \cup UsersEq
 UsersSome == {"u", "\"a=b\"", "\"with password\"", "\"pass'word\""}
 
 CasesAll == {"u", "l", "m"}
